@@ -28,6 +28,7 @@ class Case:
         self.sexpr = None
         self.unsupported = {}
         self.max_size = {}
+        self.pinned_cmds = []     # corpus/<prop>/<name>.cmds: commands replayed on every run
 
     def roots(self, limit=8):
         out = [si for si in self.prepared.structs.values() if si.unit == 8 and si.name not in self.unsupported]
@@ -43,7 +44,8 @@ def _max_size(si):
     return None
 
 
-def make_cases(chk, r, n_random, testdata=TESTDATA, corpus_prop=None, null_order_modules=0, dist=None):
+def make_cases(chk, r, n_random, testdata=TESTDATA, corpus_prop=None, null_order_modules=0, dist=None,
+               logic_probes=False):
     """testdata + corpus first, then random modules.  Rejected random modules are counted."""
     cases = []
     for fn in testdata:
@@ -54,13 +56,18 @@ def make_cases(chk, r, n_random, testdata=TESTDATA, corpus_prop=None, null_order
     if corpus_prop:
         for path in sorted(glob.glob(os.path.join(common.VERIF, "corpus", corpus_prop, "*.emb"))):
             with open(path) as f:
-                cases.append(Case("corpus/" + os.path.basename(path), f.read()))
+                c = Case("corpus/" + os.path.basename(path), f.read())
+            side = path[:-4] + ".cmds"
+            if os.path.exists(side):
+                with open(side) as f:
+                    c.pinned_cmds = [l.strip() for l in f if l.strip() and not l.startswith("#")]
+            cases.append(c)
     dist = dist if dist is not None else embgen.Distribution()
     tries = 0
     made = 0
     while made < n_random and tries < n_random * 3:
         tries += 1
-        m = embgen.gen_module(r, default_byte_order=made >= null_order_modules)
+        m = embgen.gen_module(r, default_byte_order=made >= null_order_modules, logic_probes=logic_probes)
         c = Case("random/%d" % made, m.text, gen=m)
         cases.append(c)
         made += 1
@@ -99,6 +106,97 @@ def build_cases(cases, features, std="c++14", compiler="g++", defines=(), opt="-
     return [c for c in cases if c.binary is None]
 
 
+def _const_int(expr):
+    t = (expr or {}).get("type", {}).get("integer", {})
+    if t.get("modulus") == "infinity":
+        return int(t["modular_value"])
+    return None
+
+
+def fixed_scalar_spans(si):
+    """[(start, size)] in bytes of the physical fields of a byte structure whose location is a
+    compile-time constant (read off the IR's own annotations; nested structures are not entered)."""
+    out = []
+    if si.unit != 8:
+        return out
+    for f in si.type_ir["structure"].get("field", []):
+        loc = f.get("location")
+        if not loc:
+            continue
+        a, n = _const_int(loc.get("start")), _const_int(loc.get("size"))
+        if a is not None and n is not None and 0 < n <= 8 and a >= 0:
+            out.append((a, n))
+    return out
+
+
+_PATTERNS = {
+    "min_le": lambda n: bytes([0] * (n - 1) + [0x80]), "min_be": lambda n: bytes([0x80] + [0] * (n - 1)),
+    "max_le": lambda n: bytes([0xFF] * (n - 1) + [0x7F]), "max_be": lambda n: bytes([0x7F] + [0xFF] * (n - 1)),
+    "ones": lambda n: bytes([0xFF] * n), "zero": lambda n: bytes(n), "one_le": lambda n: bytes([1] + [0] * (n - 1)),
+    "min1_le": lambda n: bytes([1] + [0] * (n - 2) + [0x80]) if n > 1 else bytes([0x81]),
+}
+
+
+def boundary_buffers(r, si, length, n_mixed=2):
+    """Buffers in which every fixed-position field holds an extreme of its type: the minimum /
+    maximum of a two's-complement integer in either byte order (0x80 00…, 00… 0x80, 0x7f ff…),
+    all-ones, zero — the contents at which carrier-type choices and text widths matter."""
+    spans = [(a, n) for a, n in fixed_scalar_spans(si) if a + n <= length]
+    if not spans:
+        return []
+    out = []
+    base = embgen.buffers(r, 3, length)[2]
+    plans = [[k] * len(spans) for k in ("min_le", "min_be", "max_le", "max_be")]
+    for _ in range(n_mixed):
+        plans.append([r.choice(sorted(_PATTERNS)) for _ in spans])
+    for plan in plans:
+        b = bytearray(base)
+        for (a, n), k in sorted(zip(spans, plan), key=lambda x: -x[0][1]):   # small fields last (overlaps)
+            b[a:a + n] = _PATTERNS[k](n)
+        out.append(bytes(b))
+    return out
+
+
+TEXT_OPTION_SETS = ("d", "2", "x", "2g", "xg", "dg", "2gmc", "dgmc", "xgmc", "2p", "2gmcp", "dgmcp", "xgp", "2m", "dc")
+GARBAGE_TEXTS = (b"", b"{", b"}", b"{ }", b"{{{{", b"{ x: }", b"{ : 1 }", b"{ a: 99999999999999999999999999 }",
+                 b"{ a: -0b1 }", b"{ a: 0x }", b"[1, 2", b"{ a: { b: { c: [ [0]: 1, [99999999999]: 2 ] } } }",
+                 b"# comment only", b"{ a: 1, a: 2, , }", b"\x00\xff{", b"{ $size_in_bytes: 3 }")
+
+
+def text_commands(r, case, tier="quick", cap=24):
+    """TXT / UPD commands: WriteToString under every option set (bases 2/10/16, digit grouping,
+    multiline, comments, allow_partial_output) on boundary / random / truncated buffers, and
+    UpdateFromText on the produced text (inside TXT) and on garbage (UPD)."""
+    out = []
+    quick = tier == "quick"
+    for si in case.roots():
+        ms = case.max_size.get(si.name)
+        length = min(cap, ms if ms is not None else cap)
+        for pv in param_values(r, si, case)[:1]:
+            ps = "".join("%d " % x for x in pv)
+            bufs = boundary_buffers(r, si, length, 1 if quick else 3)
+            bufs += embgen.buffers(r, 4 if quick else 7, length)[1:]
+            trunc = [b[:r.randrange(len(b) + 1)] for b in bufs[:3]] + [b""]
+            for i, b in enumerate(bufs):
+                opts = TEXT_OPTION_SETS if (i < 4 or not quick) else r.sample(TEXT_OPTION_SETS, 4)
+                for o in opts:
+                    out.append("TXT %s %s%s %s" % (si.name, ps, o, b.hex() or "-"))
+            for b in trunc:
+                for o in ("2gmcp", "dp", "xgp", "dgmcp"):
+                    out.append("TXT %s %s%s %s" % (si.name, ps, o, b.hex() or "-"))
+            names = [nm for nm, _a, anon in si.fields if not anon and not nm.startswith("$")]
+            texts = list(GARBAGE_TEXTS)
+            for nm in names[:4]:
+                for val in ("0", "-1", "18446744073709551616", "-9223372036854775809", "0b" + "1" * 65, "true", "XX",
+                            "{ }", "{ [0]: 0 }", "0x_", "1_000", "-0x8000_0000_0000_0000"):
+                    texts.append(("{ %s: %s }" % (nm, val)).encode())
+            b0 = bufs[-1] if bufs else b""
+            for t in texts if not quick else texts[:len(GARBAGE_TEXTS)] + r.sample(texts[len(GARBAGE_TEXTS):],
+                                                                                 min(12, len(texts) - len(GARBAGE_TEXTS))):
+                out.append("UPD %s %s%s %s" % (si.name, ps, b0.hex() or "-", t.hex() or "-"))
+    return out
+
+
 def write_commands(r, case, n_buf=2, cap=24):
     """WR commands: every top-level field (and one level of nesting) of every root structure x
     interesting values incl. the extremes of the accessor's C++ value type."""
@@ -123,6 +221,7 @@ def write_commands(r, case, n_buf=2, cap=24):
         for pv in param_values(r, si, case)[:1]:
             bufs = embgen.buffers(r, 2 + n_buf, length)[2:]
             bufs.append(bufs[0][:max(0, length // 2)])
+            bufs += boundary_buffers(r, si, length, 0)[:2]
             for path in paths:
                 for val in ("0", "1", "MAX", "MIN", "-1", str(r.randrange(256)), str(r.randrange(1 << 32))):
                     for b in bufs:
@@ -196,22 +295,47 @@ def gen_struct_of(case, si):
     return None
 
 
-def obs_sweeps(r, case, n_base, cap=24, op="OBS"):
+def obs_sweeps(r, case, n_base, cap=24, op="OBS", boundary=True):
     """Prefix sweeps: for every root structure, parameter assignment and base buffer, one OBS per
-    prefix length 0..L+2.  Returns [(cmd, si, params, data, group)] ; group identifies one sweep."""
+    prefix length 0..L+2.  Returns [(cmd, si, params, data, group)] ; group identifies one sweep.
+    The commands of a corpus side file (`.cmds`) come first (consecutive ones whose buffers are
+    prefixes of each other form one sweep); buffers holding the extremes of every fixed-position
+    field (`boundary_buffers`) are observed at full length."""
     out = []
     g = 0
+    prev = None
+    for cmd in case.pinned_cmds:
+        t = cmd.split()
+        if t[0] != "OBS" or t[1] not in case.prepared.structs:
+            continue
+        si = case.prepared.structs[t[1]]
+        data = b"" if t[-1] == "-" else bytes.fromhex(t[-1])
+        pv = [int(x) for x in t[2:-1]]
+        if prev is None or prev[0] != (si.name, pv) or data[:len(prev[1])] != prev[1]:
+            g += 1
+        prev = ((si.name, pv), data)
+        out.append((" ".join([op] + t[1:]), si, pv, data, g))
     for si in case.roots():
         ms = case.max_size.get(si.name)
         length = min(cap, (ms if ms is not None else cap) + 2)
         for pv in param_values(r, si, case):
+            ps = "".join("%d " % x for x in pv)
             for base in embgen.buffers(r, n_base, length):
                 g += 1
                 for n in range(0, length + 1):
                     data = base[:n]
-                    cmd = "%s %s %s%s" % (op, si.name, "".join("%d " % x for x in pv), data.hex() or "-")
+                    cmd = "%s %s %s%s" % (op, si.name, ps, data.hex() or "-")
                     out.append((cmd, si, pv, data, g))
+            if boundary:
+                for data in boundary_buffers(r, si, max(0, length - 2), 1):
+                    g += 1
+                    out.append(("%s %s %s%s" % (op, si.name, ps, data.hex() or "-"), si, pv, data, g))
     return out
+
+
+def pinned_commands(case, ops):
+    """Commands of the corpus side file whose op is in `ops` (and whose structure exists)."""
+    return [c for c in case.pinned_cmds if c.split()[0] in ops and c.split()[1] in case.prepared.structs]
 
 
 def run_surviving(case, cmds, on_crash, max_crashes=40):
@@ -239,6 +363,44 @@ def run_surviving(case, cmds, on_crash, max_crashes=40):
             answers.extend([None] * len(rest))
             break
     return answers
+
+
+def param_range_escapes(prepared):
+    """[(struct, field, parameter, (arg lo, arg hi), (declared lo, declared hi))]: places where a
+    structure is instantiated with an integer argument whose inferred range is not contained in the
+    range of the parameter's declared type (`Axes(axis_count)` with `axis_count: UInt:8` for
+    `struct Axes(axes: UInt:4)` in testdata/parameters.emb).  The front end accepts it and nothing
+    checks the value at run time, while bounds (`$max_size_in_*`) and C++ carrier types inside the
+    callee are inferred from the declared range — open finding of C01/C04."""
+    out = []
+
+    def atomic(ty):
+        while "array_type" in ty:
+            ty = ty["array_type"]["base_type"]
+        return ty.get("atomic_type")
+    for si in prepared.structs.values():
+        for f in si.type_ir["structure"].get("field", []):
+            at = atomic(f.get("type", {}))
+            if not at or not at.get("runtime_parameter"):
+                continue
+            target = prepared.structs.get(".".join(at["reference"]["canonical_name"]["object_path"]))
+            if target is None:
+                continue
+            for arg, rp in zip(at["runtime_parameter"], target.type_ir.get("runtime_parameter", [])):
+                a, d = arg.get("type", {}).get("integer"), rp.get("type", {}).get("integer")
+                if not a or not d:
+                    continue
+                try:
+                    ar = (int(a["minimum_value"]), int(a["maximum_value"]))
+                    dr = (int(d["minimum_value"]), int(d["maximum_value"]))
+                except (KeyError, ValueError):
+                    continue
+                if ar[0] < dr[0] or ar[1] > dr[1]:
+                    out.append((si.name, f["name"]["name"]["text"], rp["name"]["name"]["text"], ar, dr))
+    return out
+
+
+KEY_ARG_RANGE_UB = "ubsan:arithmetic-overflow:argument-outside-parameter-range"
 
 
 def crash_key(rr, cmd="", case=None):
@@ -269,6 +431,9 @@ def crash_key(rr, cmd="", case=None):
                                         "READ of size 1" in err):
             return "asan:%s:NullByteOrderer-truncated-one-byte-field" % what
         return "%s:%s" % (kind, what)
+    if "runtime error:" in err and "emboss_arithmetic.h" in err and "overflow" in err and case is not None \
+            and case.prepared is not None and param_range_escapes(case.prepared):
+        return KEY_ARG_RANGE_UB
     if "runtime error:" in err:
         import re
         m = re.search(r"([\w./]+):(\d+):\d+: runtime error: ([^\n]{0,60})", err)
